@@ -21,6 +21,10 @@ PLAN = Plan("C14", RULE, ASSUME,
             crash_is_violation=True)
 
 
+class _InjectedFault(Exception):
+    pass
+
+
 def expected(dists, k, max_dist):
     """reference answer: list of distances"""
     if k is None:
@@ -207,6 +211,28 @@ def run(ctx):
                 return [(float(m.distance), int(m.idx))]
             if kind_ == "align":
                 return [(float(d), int(i)) for d, i in obj.align(k=k)]
+            if kind_ == "fault":
+                # a search aborted by an exception part-way through the candidates (a failing loader, a raising
+                # inner distance, KeyboardInterrupt): later, perfectly normal calls must still answer like a fresh object
+                k_, j_ = k
+                orig_ = (dtw.distance, dtw_ndim.distance)
+                cnt_ = {"n": 0}
+
+                def failing(f_):
+                    def w_(*a_, **kw_):
+                        cnt_["n"] += 1
+                        if cnt_["n"] > j_:
+                            raise _InjectedFault()
+                        return f_(*a_, **kw_)
+                    return w_
+                dtw.distance, dtw_ndim.distance = failing(orig_[0]), failing(orig_[1])
+                try:
+                    obj.align(k=k_)
+                except _InjectedFault:
+                    ctx.count("searches_aborted_by_an_injected_exception")
+                finally:
+                    dtw.distance, dtw_ndim.distance = orig_
+                return None
             obj.reset()
             return None
 
@@ -241,6 +267,11 @@ def run(ctx):
                 ops.append(("align", kk))
             else:
                 ops.append(("reset", None))
+        if rng.random() < 0.2:
+            # fault history: an aborted search (exception after j distance computations) followed by normal calls
+            at = rng.randint(0, len(ops))
+            ops.insert(at, ("fault", (rng.choice([1, 2, n, None]), rng.randint(0, max(0, n - 1)))))
+            ops.insert(at + 1, (rng.choice(["kbest", "align"]), rng.choice([2, 3, n, None])))
         ctx.current("search %r ops=%r" % (wit, ops))
         before = (nested["n"], nested["lb"])
         try:
